@@ -47,6 +47,16 @@ EXC_PARENTS = {
     'PermissionError': ('OSError',),
     'TimeoutError': ('OSError',),
     'ConnectionError': ('OSError',),
+    'InterruptedError': ('OSError',),
+    'BlockingIOError': ('OSError',),
+    'ChildProcessError': ('OSError',),
+    'IsADirectoryError': ('OSError',),
+    'NotADirectoryError': ('OSError',),
+    'ProcessLookupError': ('OSError',),
+    'BrokenPipeError': ('ConnectionError',),
+    'ConnectionAbortedError': ('ConnectionError',),
+    'ConnectionRefusedError': ('ConnectionError',),
+    'ConnectionResetError': ('ConnectionError',),
     'socket.timeout': ('TimeoutError',),
     'socket.error': ('OSError',),
     'RuntimeError': ('Exception',),
